@@ -98,7 +98,7 @@ let rec split_at_slash acc = function
 let row_of tok =
   (* token = 'r' followed by the row's chars, '_' for ' ' *)
   let n = Stdlib.String.length tok in
-  let rec go i acc = if i < 1 then acc else go (i - 1) (z_of_int (match tok.[i] with '_' -> 32 | c -> Char.code c) :: acc) in
+  let rec go i acc = if i < 1 then acc else go (i - 1) (z_of_int (match Stdlib.String.get tok i with '_' -> 32 | c -> Char.code c) :: acc) in
   go (n - 1) []
 
 let init () =
